@@ -111,8 +111,14 @@ class World:
             self.tobj[ev["o"]].points[...] = self.targets[ev["v"]]
         elif op == "perturb":
             al = self.als[ev["a"] - 1]
-            v = np.array(al.as_vector(), dtype=float)
-            al.from_vector_inplace(v + np.array([0.3, 0.7, -0.2, 0.5, 0.25, -0.4, 0.1, 0.6])[:len(v)])
+            self.n_pert = getattr(self, "n_pert", 0) + 1
+            if hasattr(al, "set_rotation_matrix") and type(al).__name__ == "AlignmentRotation" and self.n_pert % 2 == 0:
+                # the other public way to overwrite the parameters of a rotation by hand: an improper matrix (a reflection) - whatever
+                # is put there, the next set_target fits afresh with the options the alignment was built with
+                al.set_rotation_matrix(np.array([[1.0, 0.0], [0.0, -1.0]]), skip_checks=True)
+            else:
+                v = np.array(al.as_vector(), dtype=float)
+                al.from_vector_inplace(v + np.array([0.3, 0.7, -0.2, 0.5, 0.25, -0.4, 0.1, 0.6])[:len(v)])
             self.als3[ev["a"] - 1] = None       # (the shadow follows fits only)
         elif op == "pinv":
             al = self.als[ev["a"] - 1]
